@@ -25,8 +25,11 @@ impl TopNExecutor {
         // initialize heap
         let heap_size = self.offset + self.limit;
         let orders = Evaluator::new(&self.order_keys).orders();
-        let mut heap =
-            BinaryHeap::with_capacity_by(heap_size, |row1, row2| cmp(row1, row2, &orders));
+        // `limit` is `usize::MAX / 2` when the query has OFFSET but no LIMIT: do not preallocate that.
+        let mut heap = BinaryHeap::with_capacity_by(
+            heap_size.min(PROCESSING_WINDOW_SIZE),
+            |row1, row2| cmp(row1, row2, &orders),
+        );
 
         // evaluate order keys and append the original rows
         // chunks = keys || child
